@@ -454,7 +454,11 @@ class Ctx:
             wall_s=round(wall, 2),
             violations=len(new),
         )
-        if not getattr(self, "is_replay", False):   # a --replay run never overwrites the check's evidence
+        scratch_tree = os.path.realpath(REPO_INCLUDE) != os.path.realpath(os.path.join(REPO, "include"))
+        if scratch_tree:
+            print(f"[{self.prop}] note: built against scratch tree {REPO_INCLUDE}; evidence file not rewritten")
+        # a --replay run or a run against a scratch include tree never overwrites the check's evidence
+        if not getattr(self, "is_replay", False) and not scratch_tree:
             os.makedirs(EVID_DIR, exist_ok=True)
             tmp = os.path.join(EVID_DIR, f".{self.prop}.json.tmp{os.getpid()}")
             with open(tmp, "w") as fh:
